@@ -153,8 +153,14 @@ def gstep (legacy : Bool) (alg : Alg) (V : View) (s : GS) : Step GS :=
 
 def gsInit (origin : Int) : GS := ⟨[⟨origin, 0⟩], []⟩
 
-/-- Enough fuel for any traversal of `g` (see `Props/C14.lean`, `C14_terminates`). -/
-def Graph.fuel (g : Graph) : Nat := 4 * g.slots.length + 4
+/-- Weight of a not yet visited element in the termination measure: a node pays for its whole chain, an edge for
+its target. -/
+def elemW (V : View) (x : Int) : Nat := if 0 < x then (V.succ x).length + 1 else 1
+
+/-- Enough fuel for any traversal of `g` in either direction (`Props/C14.lean`, `C14_graph_terminates`):
+twice the total element weight (≤ 2·(nodes + 2·edges)) in both directions, plus 2. -/
+def Graph.fuel (g : Graph) : Nat :=
+  2 * ((g.elements.map (elemW g.viewFwd)).sum + (g.elements.map (elemW g.viewRev)).sum) + 2
 
 /-! ### Elements search -/
 
